@@ -41,7 +41,8 @@ import (
 func Spec() *run.Spec {
 	return &run.Spec{
 		ID: "C05", Level: "exploration",
-		Rule: "write-read: one case = one list of 1–6 named non-empty well-formed triangle meshes (per mesh: attribute set P/PN/PT/PNT drawn independently, index pattern identity/permutation/welded/grid/unreferenced/repeated+degenerate, " +
+		Rule: "Since round 10 a fifth of the load-save texts are written to disk next to a material library that defines all, some or none of the material names used and are loaded with obj.Load(path) (a nil material pointer returned by Load is the writer's default material; faces are judged, material names are not). " +
+			"write-read: one case = one list of 1–6 named non-empty well-formed triangle meshes (per mesh: attribute set P/PN/PT/PNT drawn independently, index pattern identity/permutation/welded/grid/unreferenced/repeated+degenerate, " +
 			"7 value classes, no materials or a random partition into 1–5 ranges incl. zero-length ranges at any place, adjacent equal, nil and equal-by-name materials, material pointers shared across meshes); " +
 			"non-trivial iff ≥ 2 meshes with different attribute sets. " +
 			"load-save: one case = one generated valid triangulated OBJ text (0–5 g statements, faces before any g, empty groups, repeated group names, usemtl before g / after g / between faces / twice in a row / after the last face / none / same name again / reused across groups, " +
